@@ -9,8 +9,7 @@ import (
 	"path/filepath"
 	"regexp"
 	"strings"
-	"sync"
-	"time"
+		"time"
 )
 
 type SolverRes struct {
@@ -37,8 +36,12 @@ func solverCmd(name, file string, timeoutS int) *exec.Cmd {
 }
 
 func runSolver(name, file string, timeoutS int) SolverRes {
+	return runSolverCtx(context.Background(), name, file, timeoutS)
+}
+
+func runSolverCtx(parent context.Context, name, file string, timeoutS int) SolverRes {
 	start := time.Now()
-	ctx, cancel := context.WithTimeout(context.Background(), time.Duration(timeoutS+5)*time.Second)
+	ctx, cancel := context.WithTimeout(parent, time.Duration(timeoutS+5)*time.Second)
 	defer cancel()
 	c := solverCmd(name, file, timeoutS)
 	cmd := exec.CommandContext(ctx, c.Path, c.Args[1:]...)
@@ -64,11 +67,11 @@ func runSolver(name, file string, timeoutS int) SolverRes {
 }
 
 // symbolsOf returns the declared symbols (constants and uninterpreted functions) in t.
-var symCache sync.Map
+var symCache = map[int]map[string]bool{}
 
 func symbolsOf(t *Term) map[string]bool {
-	if v, ok := symCache.Load(t.id); ok {
-		return v.(map[string]bool)
+	if v, ok := symCache[t.id]; ok {
+		return v
 	}
 	out := map[string]bool{}
 	seen := map[int]bool{}
@@ -90,7 +93,7 @@ func symbolsOf(t *Term) map[string]bool {
 		}
 	}
 	walk(t)
-	symCache.Store(t.id, out)
+	symCache[t.id] = out
 	return out
 }
 
@@ -169,11 +172,7 @@ func withAxioms(asserts []*Term) []*Term {
 	return asserts
 }
 
-var termMu sync.Mutex
-
-func (o *Obligation) script(values bool) string {
-	termMu.Lock()
-	defer termMu.Unlock()
+func (o *Obligation) baseAsserts() []*Term {
 	var facts []*Term
 	if o.exec != nil {
 		facts = o.exec.facts[:o.NFacts]
@@ -183,15 +182,130 @@ func (o *Obligation) script(values bool) string {
 	rel := relevantFacts(facts, seeds)
 	asserts := append(append([]*Term{}, rel...), o.ExtraAs...)
 	asserts = append(asserts, o.Guard, neg)
-	asserts = instantiateFacts(asserts, 400)
-	asserts = withAxioms(asserts)
-	var gv []*Term
-	if values {
-		for _, in := range o.Inputs {
-			gv = append(gv, in.T)
+	return asserts
+}
+
+// groundOnly drops the universally quantified assumptions that remain after instantiation
+// (weaker assumptions: an unsat answer is still a proof; any other answer is ignored).
+func groundOnly(asserts []*Term) []*Term {
+	var out []*Term
+	for _, a := range asserts {
+		var qs []*Term
+		positiveForalls(a, &qs)
+		if len(qs) > 0 {
+			m := map[*Term]*Term{}
+			for _, q := range qs {
+				m[q] = True
+			}
+			a = Subst(a, m)
+		}
+		if a != True {
+			out = append(out, a)
 		}
 	}
-	return smtHeader + Script(asserts, gv, nil)
+	return out
+}
+
+// print renders the full query and, when quantified assumptions remain, the ground-only one.
+func (o *Obligation) print(asserts []*Term) (full, ground string) {
+	var gv []*Term
+	for _, in := range o.Inputs {
+		gv = append(gv, in.T)
+	}
+	full = smtHeader + Script(withAxioms(asserts), gv, nil)
+	if strings.Contains(full, "(forall ") {
+		ground = smtHeader + Script(withAxioms(groundOnly(asserts)), nil, nil)
+	}
+	return
+}
+
+// prepare builds the SMT scripts of the obligation: one query, or a case split over the
+// function's branch conditions when the merged-state query is large.
+func (o *Obligation) prepare(forceSplit int) {
+	base := o.baseAsserts()
+	raw, _ := o.print(base)
+	if (len(raw) <= 15000 && forceSplit == 0) || o.exec == nil {
+		o.Script, o.ScriptG = o.print(instantiateFacts(base, 1500))
+		return
+	}
+	o.Script = raw
+	maxAtoms := 4
+	if forceSplit > 0 {
+		maxAtoms = forceSplit
+	}
+	occurs := map[int]bool{}
+	var walk func(t *Term)
+	walk = func(t *Term) {
+		if occurs[t.id] {
+			return
+		}
+		occurs[t.id] = true
+		for _, a := range t.Args {
+			walk(a)
+		}
+	}
+	for _, a := range base {
+		walk(a)
+	}
+	var atoms []*Term
+	dup := map[int]bool{}
+	for _, c := range o.exec.branchAtoms {
+		at := c
+		if at.Op == "app" && at.Name == "not" {
+			at = at.Args[0]
+		}
+		if occurs[at.id] && !dup[at.id] && !at.open {
+			dup[at.id] = true
+			atoms = append(atoms, at)
+		}
+	}
+	if len(atoms) > maxAtoms {
+		atoms = atoms[:maxAtoms]
+	}
+	if len(atoms) == 0 {
+		return
+	}
+	n := len(atoms)
+	for mask := 0; mask < 1<<n; mask++ {
+		m := map[*Term]*Term{}
+		var lits []*Term
+		for i, at := range atoms {
+			if mask&(1<<i) != 0 {
+				m[at] = True
+				lits = append(lits, at)
+			} else {
+				m[at] = False
+				lits = append(lits, Not(at))
+			}
+		}
+		var as []*Term
+		dead := false
+		seen := map[int]bool{}
+		for _, a := range base {
+			x := Subst(a, m)
+			if x == False {
+				dead = true
+				break
+			}
+			if x != True && !seen[x.id] {
+				seen[x.id] = true
+				as = append(as, x)
+			}
+		}
+		if dead {
+			continue
+		}
+		as = append(as, lits...)
+		as = instantiateFacts(as, 1500)
+		f, g := o.print(as)
+		o.Scripts = append(o.Scripts, f)
+		o.ScriptsG = append(o.ScriptsG, g)
+	}
+}
+
+func (o *Obligation) script(values bool) string {
+	f, _ := o.print(o.baseAsserts())
+	return f
 }
 
 var valueRe = regexp.MustCompile(`^\(\((.*)\)\)$`)
@@ -202,11 +316,42 @@ func (o *Obligation) solve(tier string, idx int) {
 		o.Solver = "simplifier"
 		return
 	}
+	if len(o.Scripts) > 0 {
+		scripts := o.Scripts
+		o.Scripts = nil
+		var total int64
+		for k, sc := range scripts {
+			o.Script = sc
+			o.ScriptG = ""
+			if k < len(o.ScriptsG) {
+				o.ScriptG = o.ScriptsG[k]
+			}
+			o.Result = ""
+			o.solve(tier, idx*100+k)
+			total += o.Ms
+			if o.Result != "unsat" {
+				break
+			}
+		}
+		o.Ms = total
+		o.Solver += fmt.Sprintf(" (%d cases)", len(scripts))
+		return
+	}
 	quick, slow := 5, 20
 	if tier == "thorough" {
 		quick, slow = 10, 120
 	}
-	script := o.script(false)
+	if o.ScriptG != "" {
+		// ground-only pass first: decidable fragment, usually instantaneous
+		file := filepath.Join(workDir, fmt.Sprintf("q%05d_g.smt2", idx))
+		os.WriteFile(file, []byte(o.ScriptG), 0644)
+		r := runSolver("z3-new", file, quick)
+		if r.Result == "unsat" {
+			o.Result, o.Solver, o.Ms, o.RawOut = "unsat", "z3-new (ground instances)", r.Ms, ""
+			return
+		}
+	}
+	script := o.Script
 	if len(script) > 4<<20 {
 		o.Result = "error"
 		o.RawOut = fmt.Sprintf("VC too large: %d bytes", len(script))
@@ -214,29 +359,41 @@ func (o *Obligation) solve(tier string, idx int) {
 	}
 	file := filepath.Join(workDir, fmt.Sprintf("q%05d.smt2", idx))
 	os.WriteFile(file, []byte(script), 0644)
-	r := runSolver("z3-new", file, quick)
-	total := r.Ms
-	if r.Result != "unsat" && r.Result != "sat" {
-		// race the remaining solvers
-		ch := make(chan SolverRes, 3)
-		names := []string{"cvc5", "z3", "z3-new"}
-		for _, n := range names {
-			go func(n string) { ch <- runSolver(n, file, slow) }(n)
-		}
-		best := r
-		for range names {
-			x := <-ch
-			if x.Result == "unsat" || x.Result == "sat" {
-				if best.Result != "unsat" && best.Result != "sat" {
-					best = x
-				}
-			} else if best.Result == "error" && x.Result != "error" {
-				best = x
+	_ = quick
+	// race the three back ends; the first definite answer wins
+	names := []string{"z3-new", "cvc5", "z3"}
+	ch := make(chan SolverRes, len(names))
+	ctx, cancel := context.WithCancel(context.Background())
+	for k, n := range names {
+		go func(k int, n string) {
+			// staggered start: most obligations are decided by the first solver within a second
+			select {
+			case <-time.After(time.Duration(k) * 1500 * time.Millisecond):
+			case <-ctx.Done():
+				ch <- SolverRes{Result: "error", Solver: n}
+				return
 			}
-		}
-		total += best.Ms
-		r = best
+			ch <- runSolverCtx(ctx, n, file, slow)
+		}(k, n)
 	}
+	var r SolverRes
+	r.Result = "error"
+	var total int64
+	for range names {
+		x := <-ch
+		if x.Result == "unsat" || x.Result == "sat" {
+			r = x
+			total = x.Ms
+			break
+		}
+		if r.Result == "error" || (r.Result == "timeout" && x.Result == "unknown") {
+			r = x
+		}
+		if x.Ms > total {
+			total = x.Ms
+		}
+	}
+	cancel()
 	o.Result, o.Solver, o.Ms, o.RawOut = r.Result, r.Solver, total, r.Out
 	if o.Cover {
 		// reachability check: sat expected
@@ -248,15 +405,7 @@ func (o *Obligation) solve(tier string, idx int) {
 		return
 	}
 	if r.Result == "sat" && len(o.Inputs) > 0 {
-		// second run asking for the values of the inputs
-		s2 := o.script(true)
-		f2 := filepath.Join(workDir, fmt.Sprintf("q%05d_m.smt2", idx))
-		os.WriteFile(f2, []byte(s2), 0644)
-		m := runSolver(r.Solver, f2, slow)
-		if m.Result == "sat" {
-			o.Model = parseValues(m.Out, o.Inputs)
-			o.RawOut = m.Out
-		}
+		o.Model = parseValues(r.Out, o.Inputs)
 	}
 	if len(o.RawOut) > 20000 {
 		o.RawOut = o.RawOut[:20000] + "\n...[truncated]"
